@@ -419,3 +419,4 @@ def part2(ctx, exe):
     import shutil
     shutil.rmtree(root, ignore_errors=True)
     shutil.rmtree(dump, ignore_errors=True)
+    shutil.rmtree(os.path.join(BUILD, "scratch", "c20-pos-" + _tag(ctx)), ignore_errors=True)
